@@ -146,6 +146,18 @@ func compareOn(d *sdb.Database, built *bt.Built, low, high bool) (string, string
 				if i != len(tb.Rows) {
 					return fmt.Sprintf("%s: %d rows read, %d encoded", name, i, len(tb.Rows)), "decode:table-count"
 				}
+				// ... and every record fetched on its own by its rowid (rowids of
+				// every varint length, negative ones among them)
+				for _, row := range tb.Rows {
+					rec, err := tab.Rowid(row.Rowid)
+					if err != nil {
+						return fmt.Sprintf("%s: Rowid(%d): %v", name, row.Rowid, err), "decode:rowid-error"
+					}
+					got, ok := bt.RecordVals(rec)
+					if rec == nil || !ok || !bt.ValsEqual(got, row.Values()) {
+						return fmt.Sprintf("%s: Rowid(%d) decoded %v, encoded %v", name, row.Rowid, rec, val.Row(row.Values())), "decode:rowid-cell"
+					}
+				}
 				return "", ""
 			}(); p != "" {
 				return p, sig
